@@ -306,6 +306,31 @@ theorem commutes_general_iff (atol rtol : Rat) (ha : 0 ≤ atol) (n : Nat) (a b 
         exact this)
     exact this t
 
+/-- the decidable exact-regime test the driver evaluates implies the hypothesis `hexact` -/
+theorem hexact_of_majExactB (atol rtol : Rat) (ha : 0 ≤ atol) (X Y : MOp) (h : majExactB atol rtol X Y = true) :
+    ∀ t, Spec.C02.majCoefClose atol rtol (Dict.get? X t) (Dict.get? Y t) = true →
+      Dict.getD X t 0 = Dict.getD Y t 0 := by
+  intro t hc
+  unfold majExactB at h
+  rw [List.all_eq_true] at h
+  by_cases hm : t ∈ Dict.keys X ++ Dict.keys Y
+  · have := h t hm
+    have hcl : majTermClose atol rtol X Y t = true := (majTermClose_iff atol rtol ha X Y t).2 hc
+    simpa [hcl] using this
+  · have hx : t ∉ Dict.keys X := fun e => hm (List.mem_append_left _ e)
+    have hy : t ∉ Dict.keys Y := fun e => hm (List.mem_append_right _ e)
+    unfold Dict.getD
+    rw [(get?_eq_none_iff X t).2 hx, (get?_eq_none_iff Y t).2 hy]
+
+/-- full-strength form: under the decidable per-input test, the general path decides commutation -/
+theorem commutes_general_iff_exactB (atol rtol : Rat) (ha : 0 ≤ atol) (n : Nat) (a b : MOp)
+    (sa : ∀ e ∈ a, e.1.Pairwise (· < ·) ∧ ∀ m ∈ e.1, m < 2 * n)
+    (sb : ∀ e ∈ b, e.1.Pairwise (· < ·) ∧ ∀ m ∈ e.1, m < 2 * n)
+    (hx : majExactB atol rtol (mmul a b) (mmul b a) = true) :
+    majEq atol rtol (mmul a b) (mmul b a) = true ↔
+      ∀ s t, s < 2 ^ n → melM (mmul a b) t s = melM (mmul b a) t s :=
+  commutes_general_iff atol rtol ha n a b sa sb (hexact_of_majExactB atol rtol ha _ _ hx)
+
 end C02
 end Proofs
 end OFV
